@@ -5,6 +5,8 @@ Property theorems about the models of SkNet/Model/Vote.lean, Classify.lean, Clas
 specification of SkNet/Spec/Classify.lean.  Lemmas live in SkNet/Lemmas/Vote*.lean, Classify*.lean.
 -/
 import SkNet.Lemmas.VoteFit
+import SkNet.Lemmas.VoteChecked
+import SkNet.Lemmas.VoteTerminates
 import SkNet.Lemmas.ClassifyDiffusionFit
 import SkNet.Lemmas.ClassifyReach
 import SkNet.Lemmas.ClassifyKnn
@@ -109,6 +111,22 @@ example : Vote.fit witnessGraph [-1,0,1,1,-1] { sigma := some [1,0] } 10 = some 
   cases hs
   exact ⟨by decide, by decide +kernel⟩
 
+/-- ★ **vote_update stays within its buffers** (the out-of-bounds half of F2, repaired kernel).  On a CSR
+    matrix as scipy builds it (`Csr.WF`), square over the nodes, with non-negative weights and an update index
+    below the number of nodes, the kernel with *every* array access checked never fails — `votes` sized by the
+    largest label + 1 has a cell for every label it is asked for, whatever the label values — and it computes
+    exactly `voteUpdate`.  Contrast `pinned_vote_out_of_bounds`. -/
+theorem vote_update_in_bounds (c : Csr Rat) (hwf : c.WF = true) (hw : ∀ p, 0 ≤ c.data.getD p 0)
+    (labels : List Int) (hrow : c.nRow = labels.length) (hcol : c.nCol = labels.length) (index : List Nat)
+    (hi : ∀ i ∈ index, i < labels.length) :
+    Vote.Checked.voteUpdate? c labels index = some (Vote.voteUpdate c labels index) :=
+  Vote.voteUpdate?_eq c hwf hw labels hrow hcol index hi
+
+/-- non-vacuity: the witness graph is well formed; labels far beyond the number of nodes are in bounds -/
+example : witnessGraph.WF = true ∧
+    Vote.Checked.voteUpdate? witnessGraph [-1,1000,7,7,-1] [0,4] = some [1000,1000,7,7,7] :=
+  ⟨by decide +kernel, by decide +kernel⟩
+
 /-- the directed 3-cycle 0 → 1 → 2 → 0 (F18) -/
 def dicycle3 : Csr Rat :=
   { nRow := 3, nCol := 3, indptr := #[0,1,2,3], indices := #[1,2,0], data := #[1,1,1] }
@@ -121,6 +139,18 @@ theorem vote_oscillates :
     Vote.voteUpdate dicycle3 [1,2,1] [0,1,2] = [2,1,2] ∧ Vote.voteUpdate dicycle3 [2,1,2] [0,1,2] = [1,2,1] ∧
     Vote.fit dicycle3 [1,1,1] {} 100 = some ([1,2,1], 3) := by
   refine ⟨by decide +kernel, by decide +kernel, by decide +kernel⟩
+
+/-- ★ **propagation_terminates** (F18, repaired loop).  With `n_iter = -1` (no bound on the number of sweeps)
+    `Propagation.fit` terminates on every graph, directed or not: the configurations `labels[index_remain]` are
+    lists of a fixed length over the initial labels, finitely many, and the loop stops as soon as one comes
+    back.  The stated fuel is that number plus one; `vote_oscillates` shows that stopping only on "a sweep
+    changes nothing" (the pinned loop) is not enough. -/
+theorem propagation_terminates (c : Csr Rat) (hw : ∀ p, 0 ≤ c.data.getD p 0) (values : List Int)
+    (a : Vote.PropArgs) (hsig : Vote.SigmaOK a.sigma (Vote.instantiateVars values).2.length)
+    (hn : a.nIter = none) :
+    Vote.fit c values a
+      ((Vote.allLists (Vote.start values a.sigma).1 (Vote.start values a.sigma).2.length).length + 1) ≠ none :=
+  Vote.fit_terminates c hw values a hsig hn
 
 /-- the loop of `fit` makes at most `n_iter` sweeps, and at most `fuel` -/
 theorem propLoop_sweeps (step key : List Int → List Int) :
